@@ -908,6 +908,58 @@ def cpeprog_case(rng):
     return {"kind": "cpeprog", "line": "cpeprog | | " + " ".join(mirs) + f" ## {len(toks)} " + " ".join(toks)}
 
 
+def cpeprog_permutation_cases():
+    """Deterministic: f1(p0 = counter, p1..pk) whose self call passes a permutation of p1..pk (all k! for
+    k <= 3, rotations and transpositions for 4), every used-in-the-base-case / forwarded-only mask, tail and
+    non-tail. A forwarded-only parameter may be removed only if every self call passes it in its OWN slot
+    (`mem_selfCallReads`, `cpe_anyslot_counterexample`; seeded faults C01 / C03f drop that clause)."""
+    import itertools
+    out = []
+    idx = 0
+    for k in (2, 3, 4):
+        if k <= 3:
+            perms = list(itertools.permutations(range(k)))
+        else:
+            perms = [tuple((i + r) % 4 for i in range(4)) for r in range(4)]
+            for a in range(4):
+                for b in range(a + 1, 4):
+                    pm = list(range(4)); pm[a], pm[b] = pm[b], pm[a]; perms.append(tuple(pm))
+        for perm in perms:
+            for mask in range(1 << k):
+                tail = idx % 2 == 0
+                idx += 1
+                used = [f"p{i + 1}" for i in range(k) if (mask >> i) & 1]
+                n = k + 1
+                args = ["x800"] + [f"p{perm[j] + 1}" for j in range(k)]
+                base_m = [f"call print {len(used) + 1} p0 " + " ".join(used) + " _"]
+                base_t = ["P", str(len(used) + 1), "p0"] + used
+                rec_m = ["bin x800 sub p0 1", f"call f1 {n} " + " ".join(args) + " x810"]
+                rec_t = ["B", "x800", "sub", "p0", "1", "C", "x810", "f1", str(n)] + args
+                if tail:
+                    val = "x810"
+                else:
+                    rec_m.append("bin x820 add x810 1"); rec_t += ["B", "x820", "add", "x810", "1"]; val = "x820"
+                f1m = (f"fn f1 {n} bin x801 le p0 0 if x801 {{ " + " ".join(base_m) + " } { " + " ".join(rec_m) +
+                       f" }} 1 x802 7 {val} ret x802 end")
+                f1t = f"F f1 {n} B x801 le p0 0 I x801 " + " ".join(base_t) + " R 7 " + " ".join(rec_t) + f" R {val}"
+                vals = ["3"] + [str(11 * (i + 1)) for i in range(k)]
+                f0m = f"fn f0 0 call f1 {n} " + " ".join(vals) + " x700 call print 1 x700 _ ret 0 end"
+                f0t = f"F f0 0 C x700 f1 {n} " + " ".join(vals) + " P 1 x700 R 0"
+                out.append({"kind": "cpeprog", "line": f"cpeprog | | {f0m} {f1m} ## 2 {f0t} {f1t}"})
+    return out
+
+
+def c03_permutation_sources():
+    """builder-C03's source-level family for the same clause (read-only import; skipped when unavailable)."""
+    try:
+        from . import c03_gates
+        d = c03_gates.permutation_recursion_programs()
+    except Exception:
+        return []
+    return [{"family": "c03-permutation-recursion", "src": src, "expect": list(exp), "end": "ok", "std": False,
+             "both": True, "name": name} for name, (src, exp) in d.items()]
+
+
 def cpeprog_compare(case, impl, model):
     if not impl.startswith("prog "):
         return f"impl={impl[:300]}", None
@@ -1794,7 +1846,7 @@ def run(ctx):
             run_e2e(ctx, [data], f"corpus/{f}", stats)
     n_layout, n_tail, n_cpe, n_e2e = ctx.scale((400, 800, 500, 160), (6000, 15000, 9000, 2500))
     # protocol cases
-    cases = [{"kind": "cpe", "line": l, "arity": {}} for l in TOUR_CPE]
+    cases = [{"kind": "cpe", "line": l, "arity": {}} for l in TOUR_CPE] + cpeprog_permutation_cases()
     cases += [layout_case(rng.fork()) for _ in range(n_layout)]
     cases += [tailrec_case(rng.fork(), allow_backward=(i % 2 == 0)) for i in range(n_tail)]
     cases += [cpe_case(rng.fork(), rotate_bias=4) for _ in range(n_cpe)]
@@ -1810,7 +1862,8 @@ def run(ctx):
     if have_exec and not ctx.violations:
         uni = unicode_cases()
         dataseg_tie(ctx, uni + tour_cases(), stats)
-        e2e = tour_cases() + uni + vec_model_tie(ctx, boundary_cases(), stats) + [e2e_case(rng.fork()) for _ in range(n_e2e)]
+        e2e = (tour_cases() + uni + vec_model_tie(ctx, boundary_cases(), stats) + c03_permutation_sources() +
+               [e2e_case(rng.fork()) for _ in range(n_e2e)])
         # one dedicated probe per open finding
         e2e.append({"family": "probe-F1", "src": PROBES_F1[0], "expect": ["2"], "sig_f1": True, "sig_f2": False})
         e2e.append(e2e_nat(rng.fork(), True))
@@ -1835,8 +1888,8 @@ def run(ctx):
         "traces_validated_against_impl": stats["layout"] + stats["tailrec"] + stats["cpe"] + stats["cpesem"] + stats["cpeprog"] + stats["tailstmt"] + stats["lirloop"],
         "histogram": {k: v for k, v in stats.items() if k != "search_rng"},
         "pending": ["K3b fragment lacks non-self calls / memory statements as non-tail statements; single-assignment "
-                    "well-formedness behind the iteration-state abstraction is assumed, not proved",
-                    "K4c: composition over several eliminated parameters (decision invariance under the rewrite); Int31/string constants",
+                    "well-formedness behind the iteration-state abstraction is assumed, not proved (plan: exec_agree over `closed`)",
+                    "K4c: mixed constant + unused parameters in one sweep; Int31/string constants",
                     "match lowering is covered by C03 (MatchLower), not here"]})
     if stats["no_node"]:
         ctx.assumptions.append("Node >= 22 missing: end-to-end leg skipped, coverage reduced to the stage protocols")
